@@ -642,7 +642,9 @@ func (x *c08exec) run(worker int, seed *c08seedDoc, m jmut) {
 				if pv != nil {
 					report(fmt.Sprintf("ProofList.Verify(%d labels for %d proofs)", ll, len(f3)), pv, stack)
 				}
-				if okl && (ll != 0 || !ok) {
+				// (an empty label list must be judged like none; documents with a non-revocation part are left out of that
+				// comparison: the verdict on a proof with two candidate revocation responses depends on map order, known finding C11)
+				if okl && (ll != 0 || (!ok && !bytes.Contains(m.doc, []byte("nonrev_proof")))) {
 					r.Violation("C08/malformed-accepted/labels", fmt.Sprintf("ProofList.Verify accepts with %d labels for %d proofs (without labels: %v) (seed %s, mutation %s)", ll, len(f3), ok, seed.name, m.desc),
 						map[string]any{"seed": seed.name, "mutation": m.desc, "document": json.RawMessage(safeRaw(m.doc)), "labels": ll})
 				}
